@@ -97,6 +97,9 @@ let () =
         | "P" :: id :: en :: hex :: param :: brk :: _ ->
           let b = if brk = "-1" then None else Some (n_of_string brk) in
           print_items id (run_case (entry_of_string en) (bytes_of_hex hex) (n_of_string param) b)
+        | "R" :: id :: en :: hex :: param :: brk :: _ ->
+          let b = if brk = "-1" then None else Some (n_of_string brk) in
+          print_items id (run_ref_case (entry_of_string en) (bytes_of_hex hex) (n_of_string param) b)
         | "K" :: id :: cap :: ops ->
           print_items id (run_cache (n_of_string cap) (List.map parse_op (List.filter (fun s -> s <> "") ops)))
         | "O" :: id :: a :: b :: _ ->
